@@ -18,6 +18,8 @@ pub fn payload(id: LogId, class: u8) -> String {
             let n = match c {
                 3 => 40_000,
                 4 => 70_000,
+                // 5: one write request above 1 MiB
+                5 => (1 << 20) + 1,
                 _ => 300,
             };
             let unit = format!("<{}:{}>", id.0, id.1);
